@@ -477,7 +477,9 @@ func startRealServer(name string) (*realServer, error) {
 	}
 	return rs, nil
 }
-func (rs *realServer) url(p string) string { return fmt.Sprintf("http://127.0.0.1:%d/api/v1/%s", rs.http, p) }
+func (rs *realServer) url(p string) string {
+	return fmt.Sprintf("http://127.0.0.1:%d/api/v1/%s", rs.http, p)
+}
 func (rs *realServer) postJSON(path string, v interface{}) (int, error) {
 	j, err := json.Marshal(v)
 	if err != nil {
